@@ -157,7 +157,7 @@ def main(tier, seed):
     from framework import Runner, Query
     import itertools
     R = Runner('C15', tier, seed); R.setup()
-    R.blocks = models_str.STD_BLOCKS if tier == 'quick' else None       # quick: names over Latin, CJK, fullwidth and pictograph blocks; thorough: all of Unicode
+    R.blocks = models_str.STD_BLOCKS       # symbolic name chars range over Latin..Latin Ext-B, CJK punctuation + ideographs, fullwidth forms, pictographs (thorough adds an all-Unicode query where noted)
     c01.load_keywords(R)
     R.assumptions += ['slot patterns: all 32; cast API: 4 punctuations x budgets of 0..3 symbolic numbers in [0,1], symbolic name char; printed casts: sentence shapes of shapes.py with symbolic names']
     R.run_query(Query('table', 'c15', 'path_table', [dict(bits=list(b)) for b in itertools.product([0, 1], repeat=5)], 'all 2^5 filled-slot patterns, enum and lexical'), confirm, key_of)
@@ -169,4 +169,9 @@ def main(tier, seed):
         if tier == 'quick' and fmt == 'han': use = ss[:3]
         else: use = ss
         R.run_query(Query('printed/' + fmt, 'c15', 'path_printed', [dict(fmt=fmt, spec=sp, name=nm) for nm, sp in use], '%d sentence shapes cast to task, printed, parsed by both parsers' % len(use)), confirm, key_of)
+    # kind(parse(format(v))) = kind(v): atoms as the whole term of a sentence / task / bare term (budget vs variable
+    # prefix, punctuation vs query-variable prefix), through the C01 path (which also checks the value)
+    kshapes = [x for x in c01.shape_list(tier) if x[0].startswith(('atom/', 'sent-atom', 'task-atom', 'task/0', 'task/1'))]
+    for fmt in FORMATS:
+        R.run_query(Query('kinds/' + fmt, 'c01', 'path', [dict(fmt=fmt, name=nm, spec=sp) for nm, sp in kshapes], '%d shapes whose classification is delicate (atoms with every prefix as whole term / sentence / task, empty and single budgets)' % len(kshapes)), c01.confirm, c01.key_of)
     return R.finish(rule='one state = one path of the classification table / cast API / print-and-parse on one shape', trusted=['rustc MIR', 'mirsym + std models', 'z3'])
